@@ -286,6 +286,9 @@ def run(ctx):
                   'GD')
     from mstatic.rules import shared as _shc
     _shc.cas_primitive_reports_loss(ctx, r2)
+    _shc.facade_forwards_parameters(ctx, r2, names={
+        'update_cron_trigger', 'delete_cron_trigger',
+        'get_next_cron_triggers'})
     ad = prog.func(PER + '.advance_cron_trigger')
     cfg = ctx.cfg(ad)
     up = U.calls_in(cfg, 'update_cron_trigger')
